@@ -101,10 +101,11 @@ def skyDatetimesFloat (off : Nat) (d : Cal.D) (dst : Bool) (ts : Nat) : List (Ex
     | some x => fromMoyReal d.leap x
     | none => .error .value
 
-/-- The 24 datetimes of the header of every `hourly_*` collection: `AnalysisPeriod(m, d, 0, m, d, 23)`
-    (no leap flag is passed: the period is one of the non-leap year). -/
+/-- The 24 datetimes of the header of every `hourly_*` collection:
+    `AnalysisPeriod(m, d, 0, m, d, 23, is_leap_year=date.leap_year)` - the year kind of the stated date
+    (correspondence op `cdts`). -/
 def collectionDatetimes (d : Cal.D) : List Cal.DT :=
-  (List.range 24).map fun h => ⟨d.month, d.day, h, 0, false⟩
+  (List.range 24).map fun h => ⟨d.month, d.day, h, 0, d.leap⟩
 
 /-! ### numbers as opaque tokens -/
 
